@@ -8,3 +8,5 @@ import QlibcModel.Props.C06
 #print axioms Qlibc.Props.C06.counters_exact
 #print axioms Qlibc.Props.C06.walk_complete
 #print axioms Qlibc.Props.C06.history_refines
+#print axioms Qlibc.Shapes.Harr.widths_as_modelled
+#print axioms Qlibc.Shapes.Harr.no_hidden_static_state
